@@ -578,7 +578,7 @@ class RecordMap(ShiftPipeAction):
         rk = s1.record_keys()
         if set(rk) != set(s2.record_keys()):
             raise ValueError("can only compose operations with matching record_keys")
-        inp = s1.example_input()
+        inp = s1.example_input(value_suffix="")
         out = s2.transform(s1.transform(inp))
         rsi = inp.drop(rk, axis=1, inplace=False)
         rso = out.drop(rk, axis=1, inplace=False)
